@@ -50,10 +50,15 @@ def warn (c : String) : Diag := ⟨c, 2⟩
 /-! ### types as written in the signature -/
 
 def stripPtr (t : String) : String := if t.startsWith "*" then (t.drop 1).toString else t
-def isIterable (t : String) : Bool := (stripPtr t).startsWith "[]"
+/-- the text after a leading `[]` or `[N]` (a slice or a fixed-size array: `TypeUsageMeta.IsIterable` counts both) -/
+def afterBrackets (s : List Char) : Option (List Char) :=
+  match s with
+  | '[' :: r => (match r.dropWhile Char.isDigit with | ']' :: rest => some rest | _ => none)
+  | _ => none
+def isIterable (t : String) : Bool := (afterBrackets (stripPtr t).toList).isSome
 def elemType (t : String) : String :=
   let s := stripPtr t
-  if s.startsWith "[]" then (s.drop 2).toString else s
+  match afterBrackets s.toList with | some r => String.ofList r | none => s
 def isContextType (t : String) : Bool := t = "context.Context"
 def universePrims : List String :=
   ["string", "int", "int8", "int16", "int32", "int64", "uint", "uint8", "uint16", "uint32", "uint64", "bool", "float32", "float64", "byte", "rune", "any", "error"]
